@@ -52,6 +52,9 @@ type Case struct {
 	// PtrShare: the fixed site of ptrshare_test.go instead of a catalogue program: one struct value
 	// is root data (by pointer) for some requests and a nested pointer field of others' data.
 	PtrShare bool `json:"ptr_share,omitempty"`
+	// Swap: page.vuego is replaced while the engine reads it (see swap_test.go); the renders
+	// made after that one are compared with a fresh engine over the new version.
+	Swap bool `json:"swap,omitempty"`
 }
 
 // stuck is set once a concurrent phase did not finish: the blocked goroutines cannot be stopped
@@ -280,6 +283,17 @@ func check(c Case) error {
 		return nil
 	}
 	if stuck.Load() {
+		return nil
+	}
+	if c.Swap {
+		run.Inflight(prop, "case", c)
+		before, _ := raceLogSize()
+		if err := checkSwap(c); err != nil {
+			return err
+		}
+		if after, text := raceLogSize(); after > before {
+			return fmt.Errorf("the race detector reported a data race during this execution:\n%s", raceSummary(text, before))
+		}
 		return nil
 	}
 	if c.PtrShare {
@@ -599,6 +613,15 @@ func TestProp(t *testing.T) {
 				run.Each(rec, "enum", c, nt, cls, check)
 			}
 		}
+	}
+	// a file replaced while the engine reads it, then concurrent renders
+	for _, p := range progs {
+		i++
+		if i%shards != shard || p.Fails {
+			continue
+		}
+		sc := Case{Prog: p.Name, Swap: true, N: 4, Reps: 2, Entries: []string{"load", "vue", "file", "frag"}, Procs: 4}
+		run.Each(rec, "swap", sc, true, []string{"file-replaced-while-the-engine-reads-it"}, check)
 	}
 	// shared read-only values: root data of some requests, nested pointer of others
 	for _, pc := range []Case{
